@@ -83,6 +83,12 @@ func alphabet() []symbol {
 	out = append(out, symbol{"O(no-id)", func(w *mon.SessWorld, s *mon.SS, g *gen.Gen) []string {
 		return w.SendOps(s, oneOp(g), nil)
 	}})
+	for _, unk := range []bool{false, true} {
+		unk := unk
+		out = append(out, symbol{fmt.Sprintf("O(id)+O(no-id,unknown-type=%v)", unk), func(w *mon.SessWorld, s *mon.SS, g *gen.Gen) []string {
+			return w.SendGoodThenUnstamped(s, oneOp(g)[0], oneOp(g)[0], unk)
+		}})
+	}
 	sp := drv.SinglePrimary(false)
 	out = append(out, symbol{"M(params+election)", func(w *mon.SessWorld, s *mon.SS, g *gen.Gen) []string {
 		return w.SendMulti(s, &spb.ModifyRequest{Params: sp, ElectionId: relID(w, "high")})
@@ -357,5 +363,5 @@ func TestCheck(t *testing.T) {
 	run.Sample(map[string]any{"alphabet": names, "bystander_configurations": bystanderCfgs, "start_states": startStates})
 	run.Assume("expected termination statuses: INVALID_ARGUMENT for multi-field messages and the zero id; FAILED_PRECONDITION+MODIFY_NOT_ALLOWED for late/repeated parameters; UNIMPLEMENTED or FAILED_PRECONDITION with UNSUPPORTED_PARAMS for unsupported modes; FAILED_PRECONDITION+PARAMS_DIFFER_FROM_OTHER_CLIENTS for differing parameters; FAILED_PRECONDITION+ELECTION_ID_IN_ALL_PRIMARY for an election id without SINGLE_PRIMARY; UNIMPLEMENTED+UNSUPPORTED_PARAMS for operations without negotiation; any non-OK status (or in-band FAILED) for operations without / before / above an election id. Where two violations coincide either status is accepted; whether an un-negotiated live session constrains newcomers is left open")
 	concurrentHandshakes(run)
-	run.Finish("ALL sequences of length <= 3 over a 21-symbol alphabet {8 session-parameter combinations, election zero/low/equal/high/high with halves adding up to 2^64, operation with/without id, 6 multi-field messages incl. two whose election id is present but all-zero} on one session started in each of 4 states (fresh; negotiated; negotiated and primary; negotiated and superseded), in each of 6 bystander configurations (none; negotiated RIB/FIB primary with installed entries; un-negotiated session; combinations) - exhaustive for that space; in the thorough tier also ALL sequences of length 4 from the fresh and the primary start state without bystanders and next to a negotiated primary - plus random sequences of length 4-12; after EVERY message the termination status (code + ModifyRPCErrorDetails reason), the complete hooked server state vs the model and the silence of the other streams are checked; afterwards a fresh session must be able to negotiate and sees the unchanged maximum id. 1 in 97 sequences run over real gRPC. Plus concurrent handshakes: 2-3 connected sessions send supported parameters with equal or different acknowledgement types at the same moment (yield points perturbed): no two sessions answered OK may hold different parameters", 1000, false)
+	run.Finish("ALL sequences of length <= 3 over a 23-symbol alphabet {8 session-parameter combinations, election zero/low/equal/high/high with halves adding up to 2^64, operation with/without id, a correctly stamped operation followed in the same request by one without id (of a defined or an undefined operation type), 6 multi-field messages incl. two whose election id is present but all-zero} on one session started in each of 4 states (fresh; negotiated; negotiated and primary; negotiated and superseded), in each of 6 bystander configurations (none; negotiated RIB/FIB primary with installed entries; un-negotiated session; combinations) - exhaustive for that space; in the thorough tier also ALL sequences of length 4 from the fresh and the primary start state without bystanders and next to a negotiated primary - plus random sequences of length 4-12; after EVERY message the termination status (code + ModifyRPCErrorDetails reason), the complete hooked server state vs the model and the silence of the other streams are checked; afterwards a fresh session must be able to negotiate and sees the unchanged maximum id. 1 in 97 sequences run over real gRPC. Plus concurrent handshakes: 2-3 connected sessions send supported parameters with equal or different acknowledgement types at the same moment (yield points perturbed): no two sessions answered OK may hold different parameters", 1000, false)
 }
